@@ -279,6 +279,15 @@ FLAG_TRIGGERS = {
     "step_hash_ins": ("INSERT", "step_hash"),
     "step_hash_del": ("DELETE", "step_hash"),
 }
+# triggers that may or may not be there; the model is generated for either tree
+#   step_node_undefer_reattached (candidate fix of D39): a node whose detached flag goes 1 -> 0 clears
+#   `deferred` of its consumers
+OPTIONAL_TRIGGERS = {
+    "step_node_undefer_reattached": ("UPDATE OF detached", "node"),
+}
+UNDEFER_WHEN = ("and", ("col", "OLD", "detached"), ("not", ("col", "NEW", "detached")))
+UNDEFER_BODY = (r"UPDATE step SET deferred = (?:FALSE|0) WHERE deferred AND "
+                r"node IN \(SELECT sink FROM dependency WHERE source = NEW\.i\);?")
 # progress counters only (step_need_count); they never touch the columns modelled here
 COUNTER_TRIGGERS = {"step_need_count_ins", "step_need_count_del", "step_need_count_upd",
                     "node_detached_step_need_count"}
@@ -306,7 +315,7 @@ def parse_triggers(schema: str):
     ntrig = len(re.findall(r"CREATE (?:TEMP )?TRIGGER", text))
     if ntrig != len(found):
         raise TranslatorError(f"STEP_SCHEMA: {ntrig} triggers declared, {len(found)} parsed")
-    unknown = set(found) - set(FLAG_TRIGGERS) - COUNTER_TRIGGERS
+    unknown = set(found) - set(FLAG_TRIGGERS) - COUNTER_TRIGGERS - set(OPTIONAL_TRIGGERS)
     if unknown:
         raise TranslatorError(f"STEP_SCHEMA: unknown trigger(s) {sorted(unknown)}")
     missing = set(FLAG_TRIGGERS) - set(found)
@@ -316,6 +325,9 @@ def parse_triggers(schema: str):
         t = found[name]
         if (t["event"], t["table"]) != (event, table) or t["temp"]:
             raise TranslatorError(f"trigger {name}: event/table changed to {t['event']} ON {t['table']}")
+    for name, (event, table) in OPTIONAL_TRIGGERS.items():
+        if name in found and ((found[name]["event"], found[name]["table"]) != (event, table) or found[name]["temp"]):
+            raise TranslatorError(f"trigger {name}: event/table changed to {found[name]['event']} ON {found[name]['table']}")
     for name in COUNTER_TRIGGERS & set(found):
         body = found[name]["body"]
         if re.search(r"UPDATE step\b|INSERT INTO step\b|DELETE FROM step\b", body):
@@ -552,6 +564,14 @@ def generate():
     if single_set("step_hash_del", trg["step_hash_del"]["body"], "_has_hash") != 0:
         raise TranslatorError("step_hash_del does not clear _has_hash")
     facts["triggers"] = flags
+    undefer = "step_node_undefer_reattached" in trg
+    if undefer:
+        u = trg["step_node_undefer_reattached"]
+        if u["when"] is None or sqlexpr.parse(u["when"]) != UNDEFER_WHEN:
+            raise TranslatorError("trigger step_node_undefer_reattached: WHEN is not OLD.detached AND NOT NEW.detached")
+        if not re.fullmatch(UNDEFER_BODY, u["body"].strip()):
+            raise TranslatorError(f"trigger step_node_undefer_reattached: body not recognised: {u['body']!r}")
+    facts["undefer_on_reattach"] = undefer
 
     cmp_defer = defer_comparator()
 
@@ -611,6 +631,9 @@ def generate():
     o.append("(* file-state and node-detached triggers fire only when the value really changes *)")
     o.append("Definition trg_file_state_upd_on_change_only : bool := true.")
     o.append("Definition trg_node_detached_on_change_only : bool := true.")
+    o.append("(* step_node_undefer_reattached (optional): a node whose detached flag goes 1 -> 0 clears `deferred` "
+             "of its consumers *)")
+    o.append(f"Definition trg_undefer_on_reattach : bool := {'true' if undefer else 'false'}.")
     o.append(f"Definition trg_reset_holding_when : sexpr ncol := {sqlexpr.to_coq(w_hold, _colmap(NCOL))}.")
     o.append(f"Definition trg_clear_deferred_when : sexpr ncol := {sqlexpr.to_coq(w_def, _colmap(NCOL))}.")
     o.append(f"Definition trg_reset_defer_count_when : sexpr ncol := {sqlexpr.to_coq(w_cnt, _colmap(NCOL))}.")
